@@ -26,6 +26,10 @@ META_FUNCS = {"core.EstimationMethod.set_time_metadata", "core.EstimationMethod.
 
 
 def run(repo, res):
+    from .common import borrow
+
+    borrow(repo, res, "c32", "R32.2", "R02.3", "(= R32.2) time metadata is an update of each row's existing metadata: the row builder decodes the existing rows whenever the table holds metadata and only adds mn / vr, so no other field of any row changes")
+    borrow(repo, res, "c01", "R01.2", "R02.4", "(= R01.2) typestate of the output tables: every column write (node times, mutation nodes, mutation time/parent resets) precedes sort, so values stay attached to the rows they were computed for")
     res.rule("R02.1", "who-may-write: on the dating call graph every store / mutator call on a TableCollection or table is in the allow-list (time_units, nodes.time, mutations.{node,time,parent}, sort/build_index/compute_mutation_parents/compute_mutation_times in get_modified_ts; metadata writers on the node/mutation table only in set_time_metadata; one provenance add_row)")
     res.rule("R02.2", "the value stored to mutations.node is, for the discrete methods, the input's mutations_node unmodified, and for variational_gamma the fit's mutation_nodes: a copy of the input column whose only later stores are masked by mutation_blocks != NULL")
     cg = engine(repo, CallGraph)
@@ -126,6 +130,8 @@ def r022(repo, res):
 
 
 VARIANTS = [
+    dict(name="decode-skipped-for-own-schema", mod="core", expect="fire", rule="R02.3", old="            if len(table.metadata) > 0:\n                md_iter", new="            if len(table.metadata) > 0 and schema != default_schema:\n                md_iter"),
+    dict(name="mutation-node-written-after-sort", mod="core", expect="fire", rule="R02.4", old="        mutations.node = mut_node\n", new="", edits=[("core", "        mutations.node = mut_node\n", ""), ("core", "        tables.sort()  # need to sort before computing parents and times\n", "        tables.sort()  # need to sort before computing parents and times\n        mutations.node = mut_node\n")]),
     dict(name="flags-written", mod="core", expect="fire", rule="R02.1", old="        mutations.node = mut_node\n", new="        mutations.node = mut_node\n        nodes.flags = nodes.flags\n"),
     dict(name="simplify-output", mod="core", expect="fire", rule="R02.1", old="        tables.build_index()\n        # If mutation", new="        tables.build_index()\n        tables.simplify()\n        # If mutation"),
     dict(name="sites-truncated", mod="core", expect="fire", rule="R02.1", old="        tables.time_units = self.time_units\n", new="        tables.time_units = self.time_units\n        tables.sites.truncate(tables.sites.num_rows)\n"),
